@@ -346,7 +346,31 @@ pub fn run_c04(out: &mut Out, rng: &mut Rng, thorough: bool, only: Option<&str>)
                 }
             }
         }
+        // near-canonical texts that must NOT be accepted: both digits of one byte non-hex, in every field
+        for _ in 0..(if thorough { 30 } else { 6 }) {
+            let img = image(v, rng);
+            for with_prefix in [true, false] {
+                let mut s = hex_of(v, &img, with_prefix);
+                let off = if with_prefix { 2 } else { 0 };
+                let bytes_n = (s.len() - off) / 2;
+                let k = match rng.below(4) {
+                    0 => 0,
+                    1 => v.ck_len(),
+                    2 => v.ck_len() + 1,
+                    _ => rng.below(bytes_n as u64) as usize,
+                };
+                let bad = *rng.pick(b"zGg@`:/ \xff");
+                s[off + 2 * k] = bad;
+                s[off + 2 * k + 1] = *rng.pick(b"zGg@`:/ \xff");
+                emit_parse(out, v, "bytes", "None", &s);
+                if std::str::from_utf8(&s).is_ok() {
+                    emit_parse(out, v, "fromstr", "None", &s);
+                }
+            }
+        }
     });
+    // canonical form rests on the digit decoders / encoders of this build
+    stage_matrices(out);
 }
 
 fn junk(rng: &mut Rng, n: usize, class: u64) -> Vec<u8> {
@@ -432,6 +456,14 @@ pub fn run_c05(out: &mut Out, rng: &mut Rng, thorough: bool, only: Option<&str>)
                     s[j] = 0xff;
                 }
             }
+            for mode in MODES {
+                emit_parse(out, v, "bytes", mode, &s);
+            }
+            // both digits of one (aligned) byte invalid
+            let mut s = hex_of(v, &img, true);
+            let k = rng.below(((s.len() - 2) / 2) as u64) as usize;
+            s[2 + 2 * k] = *rng.pick(b"zG@`:/");
+            s[3 + 2 * k] = *rng.pick(b"zG@`:/");
             for mode in MODES {
                 emit_parse(out, v, "bytes", mode, &s);
             }
